@@ -743,6 +743,33 @@ META = {
                   change='a declared CONSTRAINT type vetoes objective eligibility also when the metric has no reference',
                   needs='a permanent metric with a direction, no reference and type_=CONSTRAINT: silently dropped',
                   strengthened=None),
+    'C01-k': dict(breaks='C01', file='adsg_core/optimization/assign_enc/matrix.py (NodeExistence.get_effective_settings)',
+                  change='excluded (src, tgt) pairs are re-indexed into the reduced settings on the source side only; '
+                         'the target index stays in the original index space',
+                  needs='a connection choice with an excluded pair and a CONDITIONAL target connector placed before '
+                        'the excluded target; in the architectures where that target is absent the exclusion lands '
+                        'on the next target: a "feasible" instance with a connection along the excluded edge',
+                  strengthened=None),
+    'C04-k': dict(breaks='C04 (with fixed variables)', file='adsg_core/optimization/graph_processor.py (get_additional_dv_stats)',
+                  change='"is this design-variable node fixed" is tested with the position among the design-variable '
+                         'nodes instead of the index in the full design vector',
+                  needs='a discrete design-variable node behind choice variables in the vector, some variable fixed, '
+                        'and a count asked with with_fixed=True: n_valid != number of enumerated rows',
+                  strengthened=None),
+    'C05-k': dict(breaks='C05', file='adsg_core/optimization/hierarchy/base.py (HierarchyAnalyzerBase.get_graph)',
+                  change='the per-call mask (which carries the fixed values) is ANDed into the analyzer\'s own '
+                         'feasibility mask in place (the regression of FX-02, found independently)',
+                  needs='complete encoder; fix a selection variable, decode with create=True while fixed, free (or '
+                        're-fix to another value), decode a vector with another option: pinned to the old value',
+                  strengthened=None),
+    'C16-k': dict(breaks='C16', file='adsg_core/graph/adsg.py (DSG.des_var_nodes)',
+                  change='"one variable per LINKED set" remembers only the last-seen set instead of all seen sets',
+                  needs='two LINKED design-variable sets whose members interleave in design-variable order '
+                        '(X1~X3, X2~X4): every member becomes its own variable, followers overwrite the value of '
+                        'the first member, the corrected vector no longer describes the stored values',
+                  strengthened='generator option p_dv_link2 (several LINKED pairs formed after a shuffle, so members '
+                               'interleave) and C16 input class "linked2" (4-5 design-variable nodes, 8 % of the '
+                               'cases); before, one LINKED group was always a prefix of the node list, i.e. adjacent'),
 }
 
 
